@@ -19,15 +19,7 @@ EXHAUSTIVE = False
 JOB_TIMEOUT = 3600
 
 
-WD = {
-    'es-es': ['lunes', 'martes', 'miércoles', 'jueves', 'viernes', 'sábado', 'domingo'],
-    'fr-fr': ['lundi', 'mardi', 'mercredi', 'jeudi', 'vendredi', 'samedi', 'dimanche'],
-    'pt-br': ['segunda-feira', 'terça-feira', 'quarta-feira', 'quinta-feira', 'sexta-feira', 'sábado', 'domingo'],
-    'it-it': ['lunedì', 'martedì', 'mercoledì', 'giovedì', 'venerdì', 'sabato', 'domenica'],
-    'de-de': ['Montag', 'Dienstag', 'Mittwoch', 'Donnerstag', 'Freitag', 'Samstag', 'Sonntag'],
-    'nl-nl': ['maandag', 'dinsdag', 'woensdag', 'donderdag', 'vrijdag', 'zaterdag', 'zondag'],
-    'zh-cn': ['周一', '周二', '周三', '周四', '周五', '周六', '周日'],
-}
+WD = dtlib.WD
 # culture -> family -> phrasings ({n} = N >= 2, {w} = weekday name)
 CULT_REL = {
     'es-es': {'in days': ['en {n} días'], 'in weeks': ['en {n} semanas'], 'this week': ['esta semana'], 'next week': ['próxima semana', 'la próxima semana'],
